@@ -29,6 +29,7 @@ import Verif.Gen.AppendFacts
 import Verif.Lemmas.LevelStore
 import Verif.Lemmas.MptRound
 import Verif.Lemmas.MergeRound
+import Verif.Lemmas.OrderChanges
 namespace Verif.Props.C03
 open Verif.Mpt Verif.MptStore Verif.MptStore.Collector
 
@@ -189,7 +190,7 @@ theorem merge_resolves_partial (H : Bytes → Bytes) (below : Bytes → Option B
 /-- **Merge publishes into the parent's store — one merged transaction** (closed form of `MergeResolves` for a parent
     that executed own operations `esP` and accepts a child that executed own operations `esC` on the parent's tree):
     the parent's new root resolves in the parent's layered store.  Proved discipline for own operations and for the
-    replay; assumed: canonical resolvable start tree, key injectivity, `GoodOrder` of `orderChanges`' output. -/
+    replay; assumed: canonical resolvable start tree, key injectivity, `orderChanges` not stuck (`orderStuck = false`). -/
 theorem merge_resolves_one_child (H : Bytes → Bytes) (below : Bytes → Option Bytes) (t0 t1 t2 : Node) (p0 c0 : Trie)
     (v : Nat) (esP esC : List Event)
     (hfresh : p0.cc.changes = [] ∧ p0.cc.deletes = []) (hcur : p0.db.current = [])
@@ -199,10 +200,11 @@ theorem merge_resolves_one_child (H : Bytes → Bytes) (below : Bytes → Option
     (hctree : (c0.applyEvents H esC).tree = t2)
     (hup : (p0.applyEvents H esP).root = (c0.applyEvents H esC).cc.startRoot)
     (hne : (p0.applyEvents H esP).root ≠ (c0.applyEvents H esC).root)
-    (hgood : GoodOrder (Ref.key H) (orderChanges H (c0.applyEvents H esC).cc.getChanges))
+    (hstuck : orderStuck H (c0.applyEvents H esC).cc.getChanges = false)
     (hU : KeyInjOn H (fun r => r ∈ refs t0 [] ∨ r ∈ eventRefs esP ∨ r ∈ eventRefs esC)) :
     ∃ p', mergeMPTChanges H (p0.applyEvents H esP) (c0.applyEvents H esC) = .ok p' ∧
       Resolves H (levelGet p' below) p'.tree [] := by
+  have hgood := orderChanges_good H _ hstuck
   obtain ⟨hd, hc, hsubE⟩ := one_merge_discipline H hP hC hw c0 hfreshC _ (orderChanges_perm H _) hgood hU
   obtain ⟨_, hcrP, hw1⟩ := round_ok hP hw (fun r => r ∈ refs t0 []) (fun _ h => h)
   obtain ⟨_, hcrC, _⟩ := round_ok hC hw1 (fun r => r ∈ refs t1 []) (fun _ h => h)
